@@ -146,7 +146,8 @@ class C11(Prop):
   rule = ('specs: random trees of spaces / single and multi choices (k<=4, n<=5, all distinct x sorted '
           'modes, nesting depth<=3, conditional sub-spaces of 1-3 elements), a non-finite stream with '
           'float and custom points (~25 %), and the exhaustive depth-1 family (k<=3, n<=4, candidates '
-          'from {constant, oneof(2), manyof(2 of 3), space of two}; quick: a seeded sample, thorough: all). '
+          'from {constant, oneof(2), manyof(2 of 3), space of two}; quick: a slice stratified by k x distinct x '
+          'sorted x position of the conditional candidates, thorough: all). '
           'Per spec: full enumeration when the size bound is <= 2000, members (first/last/random), '
           '8-24 one-step corruptions of members (index +-1, -1, n, swap, duplicate, drop/add child, type '
           'change, stray value), scripted and seeded random_dna, DNA comparisons. Non-trivial: the spec '
@@ -216,8 +217,20 @@ class C11(Prop):
     # the exhaustive depth-1 family (and a slice of depth 2 built on top of it)
     fam = list(G.family_points())
     if tier == 'quick':
-      small = [p for p in fam if G.size_bound(p) <= 64]
-      picked = rng.sample(small, 200)
+      # stratified slice: every (k, distinct, sorted) mode x position of the conditional candidates
+      # (none / first / last / elsewhere), so that k = 3 with a nested LAST candidate is always present
+      cells = {}
+      for p in fam:
+        if G.size_bound(p) > 160:
+          continue
+        nonconst = [bool(c) for c in p['cands']]
+        pos = ('none' if not any(nonconst) else 'last' if nonconst[-1] else
+               'first' if nonconst[0] else 'mid')
+        cells.setdefault((p['k'], p['d'], p['s'], pos), []).append(p)
+      picked = []
+      for key in sorted(cells, key=repr):
+        group = cells[key]
+        picked += rng.sample(group, min(len(group), 6 if key[0] > 1 else 4))
     else:
       picked = fam      # all 3012; fully enumerated when the size bound is <= cap (1844 of them)
     for p in picked:
@@ -231,8 +244,10 @@ class C11(Prop):
         spec = G.S([a, b])
       else:
         n = rng.randint(2, 3)
-        k = rng.randint(1, 2)
+        k = rng.randint(1, 3)
         d, s = rng.chance(0.5), rng.chance(0.5)
+        if d and k > n:
+          d = False
         cands = [rng.choice([[], [a], [b], [a, b]]) for _ in range(n)]
         spec = G.C(k, cands, d, s)
       if G.size_bound(spec) <= cap:
